@@ -689,4 +689,70 @@ theorem run_guarded_file (ev : ε → Defs β → Except Diag Bool) (fl : List (
       · simp at hg
     · simp at hg
 
+
+-- ------------------------------------------------------------------ the evaluator only matters on the conditions that occur
+
+def Line.cond? : Line ε β → Option ε
+  | .opens (.ifE c) => some c
+  | .part (.elif c) => some c
+  | _ => none
+
+/-- the controlling expressions of #if / #elif lines -/
+def conds (ls : List (Line ε β)) : List ε := ls.filterMap Line.cond?
+
+theorem procLine_congr (ev₁ ev₂ : ε → Defs β → Except Diag Bool) (l : Line ε β)
+    (h : ∀ c, l.cond? = some c → ∀ d, ev₁ c d = ev₂ c d) (s : St β) :
+    procLine ev₁ l s = procLine ev₂ l s := by
+  cases l with
+  | plain p => rfl
+  | endif x => rfl
+  | opens hd =>
+    cases hd with
+    | ifE c => simp only [procLine, evalHead, h c rfl]
+    | ifdef n x => rfl
+    | ifndef n x => rfl
+  | part ph =>
+    cases ph with
+    | els x => rfl
+    | elif c => simp only [procLine, h c rfl]
+
+theorem stepLine_congr (ev₁ ev₂ : ε → Defs β → Except Diag Bool) (l : Line ε β)
+    (h : ∀ c, l.cond? = some c → ∀ d, ev₁ c d = ev₂ c d) (m : Mode) (s : St β) :
+    stepLine ev₁ l m s = stepLine ev₂ l m s := by
+  cases m with
+  | proc => exact procLine_congr ev₁ ev₂ l h s
+  | skip d =>
+    cases d with
+    | zero =>
+      cases l with
+      | plain p => rfl
+      | opens hd => rfl
+      | part ph => exact procLine_congr ev₁ ev₂ _ h s
+      | endif x => rfl
+    | succ d => cases l <;> rfl
+
+theorem run_congr (ev₁ ev₂ : ε → Defs β → Except Diag Bool) (ls : List (Line ε β))
+    (h : ∀ c ∈ conds ls, ∀ d, ev₁ c d = ev₂ c d) (m : Mode) (s : St β) :
+    run ev₁ ls m s = run ev₂ ls m s := by
+  induction ls generalizing m s with
+  | nil => rfl
+  | cons l ls ih =>
+    have hl : ∀ c, l.cond? = some c → ∀ d, ev₁ c d = ev₂ c d := by
+      intro c hc
+      exact h c (by simp [conds, List.filterMap_cons, hc])
+    have hrest : ∀ c ∈ conds ls, ∀ d, ev₁ c d = ev₂ c d := by
+      intro c hc
+      apply h c
+      simp only [conds, List.filterMap_cons] at hc ⊢
+      cases l.cond? <;> simp_all
+    simp only [run, stepLine_congr ev₁ ev₂ l hl]
+    cases stepLine ev₂ l m s with
+    | error e => rfl
+    | ok p => exact ih hrest p.2 p.1
+
+theorem condMachine_congr (ev₁ ev₂ : ε → Defs β → Except Diag Bool) (ls : List (Line ε β))
+    (h : ∀ c ∈ conds ls, ∀ d, ev₁ c d = ev₂ c d) (d : Defs β) :
+    condMachine ev₁ ls d = condMachine ev₂ ls d := by
+  unfold condMachine; rw [run_congr ev₁ ev₂ ls h]
+
 end ChibiVerif.CondIncl
